@@ -171,7 +171,8 @@ class VersionConverter(object):
         for value in value_list:
             val = ET.Element("value")
             for element in value:
-                if element:
+                # A null entry holds nothing, not the text 'None'.
+                if element and value[element] is not None:
                     if element == 'value':
                         val.text = str(value[element])
                     else:
